@@ -29,7 +29,11 @@ def invalidations(prog: Program, resolver: Resolver, qual: str, _depth: int = 0)
     """memo functions whose cache_clear() is called in `qual` -> (memo qual, node)"""
     out = []
     for cs in resolver.callsites(qual):
-        if cs.external and cs.external.startswith("cache_clear:"):
+        if cs.external == "cache_clear:None":
+            # `for memo in (_plan_conversion, _find_path): memo.cache_clear()` - a loop over a literal, non-empty
+            # tuple of memo functions clears each of them (the For header stands for the clears)
+            out.extend(_loop_clears(prog, qual, cs.node))
+        elif cs.external and cs.external.startswith("cache_clear:"):
             out.append((cs.external.split(":", 1)[1], cs.node))
         elif _depth < 2:
             # a helper that clears the caches counts at the call site of the helper - for the caches it clears on
@@ -44,6 +48,39 @@ def invalidations(prog: Program, resolver: Resolver, qual: str, _depth: int = 0)
                     nodes.discard(None)
                     if nodes and cfg.exit_return not in cfg.reachable(cfg.entry, avoid=nodes):  # type: ignore[arg-type]
                         out.append((mm, cs.node))
+    return out
+
+
+def _loop_clears(prog: Program, qual: str, call: ast.AST) -> List[Tuple[str, ast.AST]]:
+    f = getattr(call, "func", None)
+    if not (isinstance(f, ast.Attribute) and isinstance(f.value, ast.Name)):
+        return []
+    fi = prog.functions[qual]
+    mi = prog.modules[fi.module]
+    stmt = getattr(call, "_parent", None)
+    loop = getattr(stmt, "_parent", None)
+    if not (isinstance(stmt, ast.Expr) and isinstance(loop, ast.For) and stmt in loop.body and not loop.orelse):
+        return []
+    if not (isinstance(loop.target, ast.Name) and loop.target.id == f.value.id):
+        return []
+    if not (isinstance(loop.iter, (ast.Tuple, ast.List)) and loop.iter.elts):
+        return []
+    # nothing in the body before the clear may leave the iteration
+    for earlier in loop.body[: loop.body.index(stmt)]:
+        if any(isinstance(x, (ast.Break, ast.Continue, ast.Return, ast.Raise)) for x in ast.walk(earlier)):
+            return []
+    if any(isinstance(x, ast.Break) or isinstance(x, ast.Return) for s_ in loop.body for x in ast.walk(s_)):
+        return []
+    out: List[Tuple[str, ast.AST]] = []
+    for e in loop.iter.elts:
+        inner = None
+        if isinstance(e, ast.Name):
+            inner = prog.resolve_name(mi, e.id)
+        elif isinstance(e, ast.Attribute):
+            inner = prog.resolve_attr_chain(mi, e)
+        if inner is None:
+            return []
+        out.append((inner, loop))
     return out
 
 
